@@ -63,7 +63,8 @@ type frame struct {
 	caller           *frame
 	fn               *ssa.Function
 	block, prevBlock *ssa.BasicBlock
-	env              map[ssa.Value]value // dynamic values of SSA variables
+	env              []value             // dynamic values of SSA variables, indexed by idx
+	idx              map[ssa.Value]int   // shared, read-only numbering of the function's values
 	locals           []value
 	defers           *deferred
 	result           value
@@ -85,8 +86,8 @@ func (fr *frame) get(key ssa.Value) value {
 	case *ssa.Global:
 		return fr.p.globalAddr(key)
 	}
-	if r, ok := fr.env[key]; ok {
-		return r
+	if i, ok := fr.idx[key]; ok {
+		return fr.env[i]
 	}
 	panic(fmt.Sprintf("get: no value for %T: %v in %s", key, key.Name(), fr.fn))
 }
@@ -173,35 +174,35 @@ func visitInstr(fr *frame, instr ssa.Instruction) continuation {
 		// no-op
 
 	case *ssa.UnOp:
-		fr.env[instr] = unop(fr, instr, fr.get(instr.X))
+		fr.env[fr.idx[instr]] = unop(fr, instr, fr.get(instr.X))
 
 	case *ssa.BinOp:
-		fr.env[instr] = binop(fr, instr.Op, instr.X.Type(), fr.get(instr.X), fr.get(instr.Y))
+		fr.env[fr.idx[instr]] = binop(fr, instr.Op, instr.X.Type(), fr.get(instr.X), fr.get(instr.Y))
 
 	case *ssa.Call:
 		fn, args := prepareCall(fr, &instr.Call)
-		fr.env[instr] = call(fr.p, fr, instr.Pos(), fn, args)
+		fr.env[fr.idx[instr]] = call(fr.p, fr, instr.Pos(), fn, args)
 
 	case *ssa.ChangeInterface:
-		fr.env[instr] = fr.get(instr.X)
+		fr.env[fr.idx[instr]] = fr.get(instr.X)
 
 	case *ssa.ChangeType:
-		fr.env[instr] = fr.get(instr.X) // (can't fail)
+		fr.env[fr.idx[instr]] = fr.get(instr.X) // (can't fail)
 
 	case *ssa.Convert:
-		fr.env[instr] = conv(fr, instr.Type(), instr.X.Type(), fr.get(instr.X))
+		fr.env[fr.idx[instr]] = conv(fr, instr.Type(), instr.X.Type(), fr.get(instr.X))
 
 	case *ssa.SliceToArrayPointer:
-		fr.env[instr] = sliceToArrayPointer(instr.Type(), instr.X.Type(), fr.get(instr.X))
+		fr.env[fr.idx[instr]] = sliceToArrayPointer(instr.Type(), instr.X.Type(), fr.get(instr.X))
 
 	case *ssa.MakeInterface:
-		fr.env[instr] = iface{t: instr.X.Type(), v: fr.get(instr.X)}
+		fr.env[fr.idx[instr]] = iface{t: instr.X.Type(), v: fr.get(instr.X)}
 
 	case *ssa.Extract:
-		fr.env[instr] = fr.get(instr.Tuple).(tuple)[instr.Index]
+		fr.env[fr.idx[instr]] = fr.get(instr.Tuple).(tuple)[instr.Index]
 
 	case *ssa.Slice:
-		fr.env[instr] = sliceOp(fr, fr.get(instr.X), fr.get(instr.Low), fr.get(instr.High), fr.get(instr.Max))
+		fr.env[fr.idx[instr]] = sliceOp(fr, fr.get(instr.X), fr.get(instr.Low), fr.get(instr.High), fr.get(instr.Max))
 
 	case *ssa.Return:
 		switch len(instr.Results) {
@@ -259,15 +260,15 @@ func visitInstr(fr *frame, instr ssa.Instruction) continuation {
 		call(fr.p, fr, instr.Pos(), fn, args)
 
 	case *ssa.MakeChan:
-		fr.env[instr] = &channel{cap: int(fr.concreteInt(fr.get(instr.Size)))}
+		fr.env[fr.idx[instr]] = &channel{cap: int(fr.concreteInt(fr.get(instr.Size)))}
 
 	case *ssa.Alloc:
 		var addr *value
 		if instr.Heap {
 			addr = new(value)
-			fr.env[instr] = addr
+			fr.env[fr.idx[instr]] = addr
 		} else {
-			addr = fr.env[instr].(*value)
+			addr = fr.env[fr.idx[instr]].(*value)
 		}
 		*addr = zero(mustDeref(instr.Type()))
 
@@ -282,33 +283,33 @@ func visitInstr(fr *frame, instr ssa.Instruction) continuation {
 		for i := range sl {
 			sl[i] = zero(tElt)
 		}
-		fr.env[instr] = sl[:l]
+		fr.env[fr.idx[instr]] = sl[:l]
 
 	case *ssa.MakeMap:
-		fr.env[instr] = newOmap()
+		fr.env[fr.idx[instr]] = newOmap()
 
 	case *ssa.Range:
-		fr.env[instr] = rangeIter(fr, fr.get(instr.X), instr.X.Type())
+		fr.env[fr.idx[instr]] = rangeIter(fr, fr.get(instr.X), instr.X.Type())
 
 	case *ssa.Next:
-		fr.env[instr] = fr.get(instr.Iter).(iter).next(fr)
+		fr.env[fr.idx[instr]] = fr.get(instr.Iter).(iter).next(fr)
 
 	case *ssa.FieldAddr:
-		fr.env[instr] = &(*fr.derefPtr(fr.get(instr.X))).(structure)[instr.Field]
+		fr.env[fr.idx[instr]] = &(*fr.derefPtr(fr.get(instr.X))).(structure)[instr.Field]
 
 	case *ssa.Field:
-		fr.env[instr] = fr.get(instr.X).(structure)[instr.Field]
+		fr.env[fr.idx[instr]] = fr.get(instr.X).(structure)[instr.Field]
 
 	case *ssa.IndexAddr:
 		x := fr.get(instr.X)
 		switch x := x.(type) {
 		case []value:
 			idx := fr.index(fr.get(instr.Index), len(x))
-			fr.env[instr] = &x[idx]
+			fr.env[fr.idx[instr]] = &x[idx]
 		case *value: // *array
 			a := (*fr.derefPtr(x)).(array)
 			idx := fr.index(fr.get(instr.Index), len(a))
-			fr.env[instr] = &a[idx]
+			fr.env[fr.idx[instr]] = &a[idx]
 		default:
 			panic(fmt.Sprintf("unexpected x type in IndexAddr: %T", x))
 		}
@@ -317,17 +318,17 @@ func visitInstr(fr *frame, instr ssa.Instruction) continuation {
 		x := fr.get(instr.X)
 		switch x := x.(type) {
 		case array:
-			fr.env[instr] = x[fr.index(fr.get(instr.Index), len(x))]
+			fr.env[fr.idx[instr]] = x[fr.index(fr.get(instr.Index), len(x))]
 		case string:
-			fr.env[instr] = x[fr.index(fr.get(instr.Index), len(x))]
+			fr.env[fr.idx[instr]] = x[fr.index(fr.get(instr.Index), len(x))]
 		case sym:
-			fr.env[instr] = fr.symStrIndex(x, fr.get(instr.Index))
+			fr.env[fr.idx[instr]] = fr.symStrIndex(x, fr.get(instr.Index))
 		default:
 			panic(fmt.Sprintf("unexpected x type in Index: %T", x))
 		}
 
 	case *ssa.Lookup:
-		fr.env[instr] = lookup(fr, instr, fr.get(instr.X), fr.get(instr.Index))
+		fr.env[fr.idx[instr]] = lookup(fr, instr, fr.get(instr.X), fr.get(instr.Index))
 
 	case *ssa.MapUpdate:
 		m := fr.get(instr.Map).(*omap)
@@ -338,20 +339,20 @@ func visitInstr(fr *frame, instr ssa.Instruction) continuation {
 		m.set(key, fr.get(instr.Value))
 
 	case *ssa.TypeAssert:
-		fr.env[instr] = typeAssert(fr, instr, fr.get(instr.X).(iface))
+		fr.env[fr.idx[instr]] = typeAssert(fr, instr, fr.get(instr.X).(iface))
 
 	case *ssa.MakeClosure:
 		var bindings []value
 		for _, binding := range instr.Bindings {
 			bindings = append(bindings, fr.get(binding))
 		}
-		fr.env[instr] = &closure{instr.Fn.(*ssa.Function), bindings}
+		fr.env[fr.idx[instr]] = &closure{instr.Fn.(*ssa.Function), bindings}
 
 	case *ssa.Phi:
 		panic("unreachable: phis are processed at block entry")
 
 	case *ssa.Select:
-		fr.env[instr] = selectOp(fr, instr)
+		fr.env[fr.idx[instr]] = selectOp(fr, instr)
 
 	default:
 		panic(fmt.Sprintf("unexpected instruction: %T", instr))
@@ -418,8 +419,8 @@ func call(p *Path, caller *frame, callpos token.Pos, fn value, args []value) val
 func callSSA(p *Path, caller *frame, callpos token.Pos, fn *ssa.Function, args []value, env []value) value {
 	fr := &frame{p: p, caller: caller, fn: fn}
 	if fn.Parent() == nil {
-		if m := p.eng.modelFor(fn); m != nil {
-			p.eng.noteModel(fn)
+		if m := p.eng.funcInfo(fn).model; m != nil {
+			p.noteModel(fn)
 			return m(caller, fn, args)
 		}
 		if fn.Blocks == nil {
@@ -429,25 +430,27 @@ func callSSA(p *Path, caller *frame, callpos token.Pos, fn *ssa.Function, args [
 	if fn.TypeParams().Len() > 0 && len(fn.TypeArgs()) == 0 {
 		panic("generic function body reached; build with InstantiateGenerics")
 	}
-	p.eng.noteExec(fn)
+	p.noteExec(fn)
 	p.depth++
 	if p.depth > 400 {
 		panic(abortPath{kind: "steps", reason: "call depth > 400 in " + fn.String()})
 	}
 	defer func() { p.depth-- }()
 
-	fr.env = make(map[ssa.Value]value)
+	info := p.eng.funcInfo(fn)
+	fr.idx = info.idx
+	fr.env = make([]value, info.n)
 	fr.block = fn.Blocks[0]
 	fr.locals = make([]value, len(fn.Locals))
 	for i, l := range fn.Locals {
 		fr.locals[i] = zero(mustDeref(l.Type()))
-		fr.env[l] = &fr.locals[i]
+		fr.env[fr.idx[l]] = &fr.locals[i]
 	}
 	for i, p := range fn.Params {
-		fr.env[p] = args[i]
+		fr.env[fr.idx[p]] = args[i]
 	}
 	for i, fv := range fn.FreeVars {
-		fr.env[fv] = env[i]
+		fr.env[fr.idx[fv]] = env[i]
 	}
 	for fr.block != nil {
 		runFrame(fr)
@@ -512,7 +515,7 @@ func executePhis(fr *frame) []ssa.Instruction {
 			fr.phitemps = append(fr.phitemps, fr.get(phi.Edges[predIndex]))
 		}
 		for i, phi := range phis {
-			fr.env[phi.(*ssa.Phi)] = fr.phitemps[i]
+			fr.env[fr.idx[phi.(*ssa.Phi)]] = fr.phitemps[i]
 		}
 	}
 	return nonPhis
